@@ -56,7 +56,9 @@ CLAIMED = {
             "and return a well-formed object (names, idl kinds, lengths, N, flag); closure of arithmetic: every operator method of Obs "
             "(+ - * / ** neg and reflected) and of CObs (+ - * / and reflected) executed for partner kinds Obs / CObs / int / float / complex "
             "returns a real observable or a complex observable with real parts (defect for complex partners found and fixed). NOT decided by this "
-            "check: fits / roots / importers / readers, ndarray partners, complex powers, Covobs / cov_Obs validation, ranges with non-positive step as idl."),
+            "check: fits / roots / importers / readers, ndarray partners, complex powers. Covobs._set_cov (covariance as number / two variances / 2 x 2 "
+            "matrix) rejects exactly the non-symmetric or not positive semi-definite inputs; a descending range as idl is rejected "
+            "(defect found and fixed)."),
     "C05": ("symbolic execution of reweight / correlate / merge_obs / _reduce_deltas over enumerated chain layouts with symbolic data; counting argument by ghost induction",
             "Proof: _reduce_deltas gathers by configuration number (never by position) and raises ValueError iff a requested configuration is "
             "missing (pigeonhole argument supplied as three ghost inductions); reweight builds numerator and denominator from the weight's "
